@@ -505,4 +505,33 @@ theorem reset_fresh_general (r0 : Reader) (src : Src) (ops : List Api.Op) (hn : 
   rw [a, b]
   exact ⟨rfl, rfl, rfl⟩
 
+/-! ### the unrestricted statement is false: the retained capacity shows
+
+One final stored block of 5000 bytes.  `cexR0` is a new reader on it after one `Read`: the window
+has grown from 4096 to 16384.  Reset onto the same source, it delivers the 5000 bytes in one piece
+with `io.EOF`, where a new reader delivers 4096 and then 904; and `Read(100); Close(); Read` gives
+`errClosed` after 100 bytes on the reset reader (everything was decoded, `io.EOF` latched, `Close`
+closes) but 904 further bytes and `io.EOF` on the new one (`Close` before the end only drops the
+pending 3996 bytes).  Evaluated at build time. -/
+
+def cexSrc : Src :=
+  { data := [0x01, 0x88, 0x13, 0x77, 0xEC] ++ (List.range 5000).map (fun i => UInt8.ofNat (i % 251)) }
+
+def cexR0 : Reader := (Reader.run (newReader cexSrc) [.read 10000]).1
+
+def cexShape (x : Reader × List Res) : List (Nat × Option AErr) × Nat :=
+  (x.2.map (fun r => match r with
+    | .read o e => (o.length, e) | .close e => (0, e) | .reset => (0, none)), x.1.outputOffset)
+
+#guard cexR0.core.dict.cap = 16384 ∧ (newReader cexSrc).core.dict.hist.size = 4096 ∧
+  (cexR0.reset cexSrc).core.dict.hist.size = 16384
+#guard cexShape (Reader.run (cexR0.reset cexSrc) [.read 10000, .read 10000]) =
+  ([(5000, some .eof), (0, some .eof)], 5000)
+#guard cexShape (Reader.run (newReader cexSrc) [.read 10000, .read 10000]) =
+  ([(4096, none), (904, some .eof)], 5000)
+#guard cexShape (Reader.run (cexR0.reset cexSrc) [.read 100, .close, .read 10000, .read 10000]) =
+  ([(100, none), (0, none), (0, some .closed), (0, some .closed)], 100)
+#guard cexShape (Reader.run (newReader cexSrc) [.read 100, .close, .read 10000, .read 10000]) =
+  ([(100, none), (0, none), (904, some .eof), (0, some .eof)], 1004)
+
 end Compress.Proofs.FlateApiReset
